@@ -42,19 +42,26 @@ def run(prop, P, scratch, log):
     except core.Inconclusive as e:
         out['canary_error'] = str(e)
         return out
-    # lemmas: assert(false) at the start of each proof fn body in verif_lemmas.rs
-    lem = os.path.join(d, 'ipp', 'src', 'verif_lemmas.rs')
+    # lemmas: assert(false) at the start of every proved lemma (proof fn, not axiom) of the ghost modules
     n_lem = 0
-    if os.path.exists(lem):
+    lemma_names = []
+    for gm in ('verif_lemmas.rs', 'verif_roundtrip.rs', 'verif_machine.rs', 'verif_ext.rs'):
+        lem = os.path.join(d, 'ipp', 'src', gm)
+        if not os.path.exists(lem):
+            continue
         t = open(lem).read()
-        t2, n_lem = re.subn(r'(pub proof fn \w+[^{]*?\n\{)', r'\1 assert(false);', t)
+
+        def repl(m):
+            lemma_names.append(f'{gm[:-3]}::{m.group(2)}')
+            return m.group(1) + ' assert(false);'
+        t2, k = re.subn(r'((?:pub(?:\(crate\))? )?(?:broadcast )?proof fn (\w+)\b(?:(?!\n\}).)*?\n\{)', repl, t, flags=re.S)
+        n_lem += k
         open(lem, 'w').write(t2)
     res = core.run_verus(w, ['--rlimit', '40'])
     fr = core.function_results(res)
     failed = {f[5:] if f.startswith('ipp::') else f for (_m, f, ok, _t, _r) in fr if not ok}
     passed_unexpectedly = [n for n in names if n not in failed]
-    lemma_names = [f[5:] for (_m, f, ok, _t, _r) in fr if f.startswith('ipp::verif_lemmas::')]
-    lemma_pass = [f[5:] for (_m, f, ok, _t, _r) in fr if f.startswith('ipp::verif_lemmas::') and ok and flt(f[5:])]
+    lemma_pass = [n for n in lemma_names if n not in failed and flt(n)]
     out['canary_functions'] = len(names)
     out['canary_failed_as_expected'] = len(names) - len(passed_unexpectedly)
     out['canary_lemmas'] = n_lem
